@@ -319,8 +319,10 @@ extern "C" ssize_t simk_send(int fd, const void *b, size_t n, int fl)
 	FdInfo *f = fdi(fd);
 	bool stream = f && f->kind == 1;
 	if (fault_here(F_SEND_EAGAIN, C().rate_send_eagain, NULL, 0)) { eagain_cost(); errno = EAGAIN; return -1; }
-	if (stream && n > 1 && fault_here(F_SEND_SHORT, C().rate_send_short, &a, (int64_t)n - 1)) n = (size_t)a + 1;
+	bool cut = false;
+	if (stream && n > 1 && fault_here(F_SEND_SHORT, C().rate_send_short, &a, (int64_t)n - 1)) { n = (size_t)a + 1; cut = true; }
 	ssize_t r = send(fd, b, n, fl);
+	if (cut && C().kill_after_short_send && C().kill_spid && cur_spid() == C().kill_spid) proc_die();
 	if (r < 0 && (errno == EAGAIN || errno == EWOULDBLOCK)) { int e = errno; eagain_cost(); errno = e; }
 	return r;
 }
